@@ -892,7 +892,7 @@ func genIso(r *Rng, server bool) isoCfg {
 }
 
 func runC18(c *Ctx) {
-	c.Res.Rule = "proxy: every sequence of <=L calls over {WriteHeader(201), WriteHeader(404), Write(3 accepted 3), Write(4 accepted 1 + error), ReadFrom(5 accepted 5), ReadFrom(5 accepted 2 + error), Flush} for the writers basic / Flusher / CloseNotifier+Flusher+Hijacker+ReaderFrom (L=5), then seeded random sequences of 1..14 calls (12 status codes incl. 0/1xx/999, lengths 0..2000, any accepted count with/without error, empty ReadFrom) over 7 capability sets, all through the real hlog.AccessHandler on a recording fake ResponseWriter; plus sequences <=3 (thorough 5) on a real net/http server compared with what the client received; non-trivial = at least two kinds of call or a partial/failed write. isolation: batches of 1..32 concurrent requests with distinct URL/method/remote address/user agent/referer/header/host values through NewHandler + a random list of 0..8 field handlers (12 kinds, repeats allowed), probes at random chain positions, a barrier before the final events, base logger with nil context / spare capacity / longer than 500 bytes, direct ServeHTTP and a real httptest.Server; non-trivial = >=2 requests and >=1 field handler"
+	c.Res.Rule = "proxy: every sequence of <=L calls over {WriteHeader(201), WriteHeader(404), Write(3 accepted 3), Write(4 accepted 1 + error), ReadFrom(5 accepted 5), ReadFrom(5 accepted 2 + error), Flush} for the writers basic / Flusher / CloseNotifier+Flusher+Hijacker+ReaderFrom (L=5), then seeded random sequences of 1..14 calls (12 status codes incl. 0/1xx/999, lengths 0..2000, any accepted count with/without error, empty ReadFrom) over 7 capability sets, all through the real hlog.AccessHandler on a recording fake ResponseWriter; stacked AccessHandlers (the ResponseWriter given to one is the proxy of another) with calls made between them: two layers exhaustively over <=2 calls sent by the middleware before the inner AccessHandler x <=2 calls of the inner handler x <=1 call afterwards on {WriteHeader(202), WriteHeader(404), Write(3), ReadFrom(5), ReadFrom(5 accepted 2 + error)} for the three writers, then random 2-3 layers over all capability sets; every layer must report the calls made inside it; plus sequences <=3 (thorough 5) on a real net/http server compared with what the client received; non-trivial = at least two kinds of call or a partial/failed write. isolation: batches of 1..32 concurrent requests with distinct URL/method/remote address/user agent/referer/header/host values through NewHandler + a random list of 0..8 field handlers (12 kinds, repeats allowed), probes at random chain positions, a barrier before the final events, base logger with nil context / spare capacity / longer than 500 bytes, direct ServeHTTP and a real httptest.Server; non-trivial = >=2 requests and >=1 field handler"
 	c.OpenShards("From Verif Require Import Base.Prelude Misc.Hlog Misc.HlogHeap Harness.C18H.\nOpen Scope Z_scope.",
 		"c18_case * c18_obs", "mismatches c18_run c18_eqb", 1000)
 
@@ -938,6 +938,8 @@ func runC18(c *Ctx) {
 		}
 		proxyCase(c, all[r.Intn(len(all))], ops, "random")
 	}
+	// ---- stacked AccessHandlers with something sent between them (nested.go)
+	nestedProxy(c)
 	// ---- proxy on a real server
 	realServer(c)
 
@@ -974,10 +976,11 @@ func replayC18(c *Ctx) {
 	}
 	var rp struct {
 		Case struct {
-			Kind   string  `json:"kind"`
-			Caps   capsT   `json:"caps"`
-			Ops    []opT   `json:"ops"`
-			Config *isoCfg `json:"config"`
+			Kind   string   `json:"kind"`
+			Caps   capsT    `json:"caps"`
+			Ops    []opT    `json:"ops"`
+			Layers []layerT `json:"layers"`
+			Config *isoCfg  `json:"config"`
 		} `json:"case"`
 	}
 	if err := json.Unmarshal(b, &rp); err != nil {
@@ -986,6 +989,8 @@ func replayC18(c *Ctx) {
 	switch rp.Case.Kind {
 	case "proxy":
 		proxyCase(c, rp.Case.Caps, rp.Case.Ops, "replay")
+	case "nested":
+		nestedCase(c, rp.Case.Caps, rp.Case.Layers, "replay")
 	case "iso":
 		for i := 0; i < 20; i++ { // the goroutine schedule is the runtime's: repeat
 			isoBatch(c, *rp.Case.Config)
